@@ -51,9 +51,10 @@ CASES = [
  ("C19", "basic/random.py", "        if n < 0 or n > N:\n            n = N", "        if not (0 <= n <= N):\n            n = N", "keep"),
  ("C19", "stochastic/_ranker.py", "        if n < 0 or n > N:\n            n = N", "        if not (0 < n <= N):\n            n = N", "break"),
 ]
-import py2lean_np, py2lean_scatter, py2lean_imp, py2lean_holdout, py2lean_arrow, py2lean_cand
+import py2lean_np, py2lean_scatter, py2lean_imp, py2lean_holdout, py2lean_arrow, py2lean_cand, py2lean_neg
 # other per-run translators: (generated file, obligations module, generator, its Unsupported)
-OTHER = {"C03cand": ("CandC03.lean", "LK.Proofs.CandC03", py2lean_cand.translate, py2lean_cand.Unsupported),
+OTHER = {"C20neg": ("NegC20.lean", "LK.Proofs.NegC20", py2lean_neg.translate, py2lean_neg.Unsupported),
+         "C03cand": ("CandC03.lean", "LK.Proofs.CandC03", py2lean_cand.translate, py2lean_cand.Unsupported),
          "C17sc": ("ArrowScalarC17.lean", "LK.Proofs.ArrowC17", py2lean_arrow.translate_scalar, py2lean_arrow.Unsupported),
          "C17ar": ("ArrowC17.lean", "LK.Proofs.ArrowC17", py2lean_arrow.translate, py2lean_arrow.Unsupported),
          "C05ho": ("HoldoutC05.lean", "LK.Proofs.HoldoutC05", py2lean_holdout.generate, py2lean_holdout.Unsupported),
@@ -62,6 +63,11 @@ OTHER = {"C03cand": ("CandC03.lean", "LK.Proofs.CandC03", py2lean_cand.translate
          "C08np": ("NpC08.lean", "LK.Proofs.NpC08", py2lean_np.translate_learn, py2lean_np.Unsupported),
          "C04sc": ("ScatterC04.lean", "LK.Proofs.ScatterC04", py2lean_scatter.generate, py2lean_scatter.Unsupported)}
 CASES += [
+ ("C20neg", "data/relationships.py", "        return locs >= 0", "        return locs > 0", "break"),
+ ("C20neg", "data/relationships.py", "                    max_attempts=max_attempts - 1,\n                    weighting=weighting,", "                    max_attempts=max_attempts - 1,", "break"),
+ ("C20neg", "data/relationships.py", "                    max_attempts=max_attempts - 1,", "                    max_attempts=max_attempts,", "break"),
+ ("C20neg", "data/relationships.py", "                trows = rng.choice(self._table.num_rows, size=shape, replace=True)", "                trows = rng.integers(0, self._table.num_rows - 1, size=shape)", "break"),
+ ("C20neg", "data/relationships.py", "        _log.debug(\"checking negatives\", nrows=len(rows), npos=np.sum(non_neg).item())\n", "", "keep"),
  ("C03cand", "basic/candidates.py", "            qis = qis[qis >= 0]\n", "", "break"),
  ("C03cand", "basic/candidates.py", "            mask[qis] = False", "            mask[qis] = True", "break"),
  ("C17sc", "data/builder.py", "        val_array = val_array.take(pa.array(np.argsort(nums.to_numpy(), kind=\"stable\")))\n", "", "break"),
